@@ -30,6 +30,8 @@ func TestFamily(t *testing.T) {
 		scs = append(replayFamily(behs), scriptFamily(fam, seed, EnvInt("VERIF_NRANDOM", 40))...)
 	case "grace":
 		scs = graceFamily()
+	case "direct":
+		scs = directFamily()
 	case "reent":
 		scs = reentFamily()
 	case "limit":
